@@ -243,6 +243,25 @@ def run(repo, rep, tier):
                     else:
                         rep.ok("R-C04-1", f"{SPECPART_C} ptnghb class {cname}", f"{len(enabled)} neighbours",
                                "displacement set == {-1,0,1}^2 minus (0,0), frequency clipped, direction circular")
+    # the ORDER of the slots is part of the table: pt_fld's decisions depend on the order in which a bin's neighbours are visited
+    # (labels seen as a,b,a vs a,a,b), so every direction row must list its neighbours in the same order of displacements, or a
+    # circular shift of the spectrum along the direction axis changes the flooding of the rows next to the seam
+    for ifirst, ilast in ((True, False), (False, False), (False, True)):
+        seqs = {}
+        for jname, (jfirst, jlast) in (("first row", (True, False)), ("interior rows", (False, False)), ("last row", (False, True))):
+            val = {("i", "first"): ifirst, ("i", "last"): ilast, ("j", "first"): jfirst, ("j", "last"): jlast}
+            seqs[jname] = [d for atoms, d, st in table if all(val[(v, w)] == pos for v, w, pos in atoms)]
+        iname = "first" if ifirst else "last" if ilast else "interior"
+        ref = seqs["interior rows"]
+        diff = [k_ for k_, v_ in seqs.items() if v_ != ref and sorted(v_) == sorted(ref)]
+        if diff:
+            rep.fail("R-C04-1", SPECPART_C, cf.line(stores[0]["node"]), "ptnghb", f"slot order, frequency column {iname}, direction {diff[0]}",
+                     f"neighbours are listed as {seqs[diff[0]]} but as {ref} on the interior rows: the immersion visits a bin's neighbours in slot "
+                     "order and its outcome depends on that order, so bins on the seam rows are flooded differently from the same bins after a "
+                     "circular shift of the direction axis")
+        else:
+            rep.ok("R-C04-1", f"{SPECPART_C} ptnghb slot order (i {iname})", f"{len(ref)} displacements in the same order on the first, interior and last direction row",
+                   "neighbour visiting order is independent of where the direction axis is cut")
     if count_store is None or poly_of(count_store[1]) != Poly.const(8) + Poly.const(9) * Poly.var("n") or \
             poly_of(count_store[2]) != Poly.var("k") + ONE:
         rep.fail("R-C04-1", SPECPART_C, cf.line(count_store[0]) if count_store else 0, "ptnghb",
@@ -382,6 +401,56 @@ def layout(repo, rep, rule):
                  "partition() must receive nk = DIMS[0] (freq) and nth = DIMS[1] (dir) in that order")
     else:
         rep.ok(rule, f"{WRAP_C}:{wf.line(call[0])} specpart", wf.text(call[0]), "nk = DIMS[0], nth = DIMS[1]")
+    # the scalars handed to partition() are the caller's: written once (parsed / read from the array shape), never adjusted afterwards
+    nwrites = {}
+    for x in wf.walk(wf.func("specpart")):
+        tgt = None
+        if is_assign(x):
+            l_ = ex(x["inner"][0])
+            while l_[0] == "bin" and l_[1] == "=":
+                l_ = l_[2]
+            if l_[0] == "var":
+                tgt = l_[1]
+            # chained  nk = dims[0] = ...: the inner assignment is visited on its own
+        elif x.get("kind") == "UnaryOperator" and x.get("opcode") in ("++", "--", "&"):
+            t_ = ex(x["inner"][0])
+            if t_[0] == "var":
+                tgt = t_[1]
+        elif x.get("kind") == "VarDecl" and x.get("init"):
+            tgt = x.get("name")
+        if tgt is not None:
+            nwrites.setdefault(tgt, []).append(x)
+    for arg, what in zip(a[2:5], ("nk", "nth", "ihmax")):
+        if arg[0] != "var":
+            rep.fail(rule, WRAP_C, wf.line(call[0]), "specpart", wf.text(call[0]), f"partition() must receive the caller's {what} itself, found {show(arg)}")
+            continue
+        ws = nwrites.get(arg[1], [])
+        if len(ws) != 1:
+            extra = ws[1] if len(ws) > 1 else call[0]
+            rep.fail(rule, WRAP_C, wf.line(extra), "specpart", wf.text(extra)[:100],
+                     f"'{arg[1]}' ({what}) is written {len(ws)} times before partition() is called: the routine must receive the grid shape and the "
+                     "number of levels the caller asked for (a clamped or adjusted level count discretises the spectrum differently, merging or "
+                     "splitting regional maxima)")
+        else:
+            rep.ok(rule, f"{WRAP_C}:{wf.line(ws[0])} specpart", f"{arg[1]} -> partition({what})", "single definition, forwarded unchanged")
+    for fname in ("partition", "pt_fld", "ptsort", "partinit"):
+        fn_ = cf.func(fname)
+        scal = [c["name"] for c in fn_.get("inner", []) if c.get("kind") == "ParmVarDecl" and "*" not in c.get("type", {}).get("qualType", "")]
+        bad_ = None
+        for x in cf.walk(fn_):
+            t_ = None
+            if is_assign(x):
+                t_ = ex(x["inner"][0])
+            elif x.get("kind") == "UnaryOperator" and x.get("opcode") in ("++", "--"):
+                t_ = ex(x["inner"][0])
+            if t_ is not None and t_[0] == "var" and t_[1] in scal and bad_ is None:
+                bad_ = x
+        if bad_ is not None:
+            rep.fail(rule, SPECPART_C, cf.line(bad_), fname, cf.text(bad_)[:100],
+                     "a scalar argument (grid shape / number of levels) is modified inside the native routine: the discretisation is no longer "
+                     "the one requested")
+        else:
+            rep.ok(rule, f"{SPECPART_C} {fname}", f"scalar parameters {scal}", "never reassigned")
     want = {repr(F_FAST): 1, repr(C_ORDER): 0}
     if repr(opoly) not in want or want[repr(opoly)] != fortran[1]:
         rep.fail(rule, SPECPART_C, cf.line(n2), "partition", cf.text(n2) + f"  /  PyArray_ZEROS(..., fortran={fortran[1]})",
